@@ -242,6 +242,13 @@ _ROUND8 = {
     "C24": " A query that raises is judged as a wrong answer (not as a harness error).",
     "C36": " Also a restarted server whose start-up pass reads a busy handler's tick log slowly while a client's answer reloads the run on demand, which then goes idle and is released: when the slow read returns the run must stay (or get) released.",
 }
+_ROUND8.update({
+    "C05": " Also a predicate on the failure's CAUSE (retry_if_exception_cause_type) with every attempt's error chained from one cached cause object, or being the very same exception instance.",
+    "C08": " Also a lineage that has used its recovery budget and then fails in a step that waited with a timeout (the TimeoutError is routed with the lineage's count as it stands).",
+    "C18": " Also an event class whose qualified name is bound to a NEW class (one more typed field) after it was read back once: instances of the new class come back as the new class.",
+    "C30": " Also runs of the same instance started from inside a step of one of its runs (they count like any other run).",
+    "C31": " After a run ended by timeout / cancellation no step body of it may still be executing.",
+})
 for _k, _add in _ROUND8.items():
     _t = CHECKS[_k]
     CHECKS[_k] = (_t[0], _t[1] + _add, *_t[2:])
